@@ -18,6 +18,7 @@ import GoPipeline.Model.Roundtrip
 import GoPipeline.Lemmas.Unmarshal
 import GoPipeline.Lemmas.Parse13
 import GoPipeline.Lemmas.PluginSource
+import GoPipeline.Lemmas.PluginSourceIdem
 set_option linter.unusedSimpArgs false
 set_option linter.unusedVariables false
 namespace GoPipeline.Roundtrip
@@ -1262,49 +1263,11 @@ theorem cache_roundtrip (v : Val) (c : Cache) (hv : NoUMap v) (h : parseCache v 
 
 /-! ## Part 4: normalisation is idempotent
 
-  `normPlugin` rewrites the source to `fullSource`, which is idempotent on the documented domain of
-  `Plugin.FullSource` only (C17): outside it, e.g. `fullSource "x/y#a/../.." = "github.com"` and
-  `fullSource "github.com" = "github.com/buildkite-plugins/github.com-buildkite-plugin"`.
-  The theorems that compare normal forms therefore assume `SrcStable` of every plugin source. -/
-
-/-- The documented domain of `(*Plugin).FullSource` (as in C14 / C17). -/
-def SrcInDom (s : String) : Prop :=
-  (∀ c ∈ s.toList, PluginSrc.isDomChar c = true) ∧
-  ((PluginSrc.cutHash s.toList).2 = [] ∨
-    ∀ comp ∈ PluginSrc.splitOn '/' (PluginSrc.cutHash s.toList).2, comp ≠ [] ∧ comp ≠ ['.'] ∧ comp ≠ ['.', '.'])
-
-def commandSources (c : CommandStep) : List String :=
-  (c.plugins.getD []).filterMap fun p => p.map (·.source)
-
-mutual
-  def stepSources : Step → List String
-    | .command c => commandSources c
-    | .group _ _ (some l) _ => stepsSources l
-    | _ => []
-  def stepsSources : List Step → List String
-    | [] => []
-    | s :: r => stepSources s ++ stepsSources r
-end
-
-/-- Every plugin source occurring in the pipeline (command steps at any group depth). -/
-def pipelineSources (p : Pipeline) : List String :=
-  match p.steps with
-  | none => []
-  | some l => stepsSources l
-
-/-- The side condition actually used: canonicalising the source a second time changes nothing
-    (decidable; implied by the documented domain, `srcStable_of_inDom`). -/
-def SrcStable (s : String) : Prop := fullSource (fullSource s) = fullSource s
-
-instance (s : String) : Decidable (SrcStable s) := by unfold SrcStable; exact inferInstance
-
-theorem srcStable_of_inDom (s : String) (hd : SrcInDom s) : SrcStable s := by
-  unfold SrcStable
-  obtain ⟨r, hr⟩ := PluginSrc.total_on_dom s.toList hd
-  have hi := PluginSrc.idempotent s.toList r hd hr
-  have e1 : fullSource s = String.ofList r := by simp [fullSource, hr]
-  rw [e1]
-  simp [fullSource, String.toList_ofList, hi]
+  `normPlugin` rewrites the source to `fullSource`, which is idempotent for every string
+  (`Marshal.fullSource_idem`, Lemmas/PluginSourceIdem.lean) since finding F17 was fixed in the code
+  (commit 3ced888: `FullSource` concatenates instead of calling `path.Join`). Before the fix the theorems
+  that compare normal forms needed a side condition on every plugin source, e.g.
+  `"x/y#a/../.." ↦ "github.com" ↦ "github.com/buildkite-plugins/github.com-buildkite-plugin"`. -/
 
 theorem normList_idem {α : Type} (x : Option (List α)) : normList (normList x) = normList x := by
   cases x with
@@ -1328,9 +1291,9 @@ theorem normList_map_idem {α : Type} (g : α → α) (x : Option (List α)) (hg
         exact hg b (List.mem_cons_of_mem _ hb)
       rw [this]
 
-theorem normPlugin_idem (p : Plugin) (hd : SrcStable p.source) : normPlugin (normPlugin p) = normPlugin p := by
+theorem normPlugin_idem (p : Plugin) : normPlugin (normPlugin p) = normPlugin p := by
   obtain ⟨src, cfg⟩ := p
-  simp only [normPlugin, show fullSource (fullSource src) = fullSource src from hd]
+  simp only [normPlugin, fullSource_idem src]
   congr 1
   cases cfg with
   | umap kvs => cases kvs <;> rfl
@@ -1351,51 +1314,44 @@ theorem normMatrix_idem (m : Matrix) : normMatrix (normMatrix m) = normMatrix m 
 theorem normCache_idem (c : Cache) : normCache (normCache c) = normCache c := by
   simp only [normCache, normList_idem]
 
-theorem normCommand_idem (c : CommandStep) (hd : ∀ src ∈ commandSources c, SrcStable src) :
-    normCommand (normCommand c) = normCommand c := by
+theorem normCommand_idem (c : CommandStep) : normCommand (normCommand c) = normCommand c := by
   simp only [normCommand, normList_idem]
   congr 1
   · apply normList_map_idem (fun p => Option.map normPlugin p) c.plugins
-    intro a ha
+    intro a _
     cases a with
     | none => rfl
     | some p =>
       simp only [Option.map_some]
-      rw [normPlugin_idem p (hd p.source (by
-        unfold commandSources
-        exact List.mem_filterMap.2 ⟨some p, ha, rfl⟩))]
+      rw [normPlugin_idem p]
   · cases c.signature <;> simp [normList_idem]
   · cases c.matrix <;> simp [normMatrix_idem]
   · cases c.cache <;> simp [normCache_idem]
 
 mutual
-  theorem normStep_idem : (s : Step) → (∀ src ∈ stepSources s, SrcStable src) → normStep (normStep s) = normStep s
-    | .command c, h => by
-      rw [normStep, normStep, normCommand_idem c (by simpa [stepSources] using h)]
-    | .wait s c, _ => by rw [normStep, normStep, normList_idem]
-    | .input s c, _ => by rw [normStep, normStep, normList_idem]
-    | .trigger c, _ => by rw [normStep, normStep, normList_idem]
-    | .group k g none r, _ => by
+  theorem normStep_idem : (s : Step) → normStep (normStep s) = normStep s
+    | .command c => by
+      rw [normStep, normStep, normCommand_idem c]
+    | .wait s c => by rw [normStep, normStep, normList_idem]
+    | .input s c => by rw [normStep, normStep, normList_idem]
+    | .trigger c => by rw [normStep, normStep, normList_idem]
+    | .group k g none r => by
       simp only [normStep, normSteps, normList_idem]
-    | .group k g (some l) r, h => by
-      simp only [normStep, normList_idem, normSteps_idem l (by simpa [stepSources] using h)]
-    | .unknown v, _ => by rw [normStep, normStep]
-  theorem normSteps_idem : (l : List Step) → (∀ src ∈ stepsSources l, SrcStable src) →
-      normSteps (normSteps l) = normSteps l
-    | [], _ => rfl
-    | s :: r, h => by
-      simp only [stepsSources, List.mem_append] at h
-      rw [normSteps, normSteps, normStep_idem s (fun x hx => h x (.inl hx)),
-        normSteps_idem r (fun x hx => h x (.inr hx))]
+    | .group k g (some l) r => by
+      simp only [normStep, normList_idem, normSteps_idem l]
+    | .unknown v => by rw [normStep, normStep]
+  theorem normSteps_idem : (l : List Step) → normSteps (normSteps l) = normSteps l
+    | [] => rfl
+    | s :: r => by
+      rw [normSteps, normSteps, normStep_idem s, normSteps_idem r]
 end
 
-theorem norm_idempotent (p : Pipeline) (hd : ∀ src ∈ pipelineSources p, SrcStable src) :
-    normPipeline (normPipeline p) = normPipeline p := by
+theorem norm_idempotent (p : Pipeline) : normPipeline (normPipeline p) = normPipeline p := by
   obtain ⟨steps, env, rem⟩ := p
   cases steps with
   | none => simp only [normPipeline, normList_idem, normSteps]
   | some l =>
-    simp only [normPipeline, normList_idem, normSteps_idem l (by simpa [pipelineSources] using hd)]
+    simp only [normPipeline, normList_idem, normSteps_idem l]
 
 /-! ## Part 5: the command step -/
 
@@ -1655,5 +1611,691 @@ theorem outlineKeys_cs_alias {R : Entries} {k : String} (h : k ∈ outlineKeys R
       | none => rfl
       | some w => simp [fieldTake, Field.key, hp] at ht
   all_goals first | (simp [Field.role] at hr; done) | (subst hk; exact absurd (by decide) hn)
+
+
+theorem cmdOutlineKeys_normal : ∀ k ∈ cmdOutlineKeys, k ∈ normalKeys csD := by decide
+
+theorem map_map_idem {α : Type} (g : α → α) (l : List α) (h : ∀ a ∈ l, g (g a) = g a) :
+    (l.map g).map g = l.map g := by
+  rw [List.map_map]
+  apply List.map_congr_left
+  intro a ha
+  exact h a ha
+
+theorem command_roundtrip_ok (c : CommandStep) (hok : CommandOK c) (hs : StableCommand c) :
+    ∃ kvs c', rereadJ (mCommand c) = .omap kvs ∧ parseCommand kvs = .ok c' ∧ normCommand c' = normCommand c ∧
+      kvs.lookup "command" = some (.str c.command) ∧
+      ∀ k, k ∉ cmdOutlineKeys → kvs.lookup k = (c.rem.getD []).lookup k := by
+  obtain ⟨hst_alias, _, hst_mx, hst_cache, _⟩ := hs
+  rw [mCommand_eq]
+  obtain ⟨U, hU, hsU, hl⟩ := reread_inline (cmdOutline c) c.rem (cmdOutline_nodup c) hok.rem.sorted hok.rem.noUMap
+  obtain ⟨ok, ol, oc, op, oe, os, om, oca⟩ := cmdOutline_lookups c
+  have hUcommands : U.lookup "commands" = none := by
+    rw [hl, cmdOutline_lookup_other c (by decide)]; exact hok.noCommands
+  have hUcommand : U.lookup "command" = some (.str c.command) := by rw [hl, oc]; rfl
+  have hcmds : optField (taken U outerD) "Commands" none strsOf = .ok (some [c.command]) := by
+    unfold optField; rw [fieldOf_commands, hUcommands, hUcommand]; rfl
+  have hOK : outlineKeys U outerD = ["command"] := by
+    simp [outlineKeys, taken, fieldTake, firstAlias, Gen.struct_CommandStep_UnmarshalOrdered_local0, Field.role,
+      Field.key, Field.aliases, Field.name, hUcommands, hUcommand]
+  have hR : ∀ k, (remainder U outerD).lookup k = if k = "command" then none else U.lookup k := by
+    intro k; rw [lookup_remainder, hOK]; simp
+  have hsR : SortedK (remainder U outerD) := sortedK_sublist List.filter_sublist hsU
+  obtain ⟨R, hRdef⟩ : ∃ R, remainder U outerD = R := ⟨_, rfl⟩
+  rw [hRdef] at hR hsR
+  have hRU : ∀ k, k ≠ "command" → R.lookup k = match (cmdOutline c).lookup k with
+      | some v => some (rereadJ v)
+      | none => (c.rem.getD []).lookup k := by
+    intro k hne; rw [hR, if_neg hne]; exact hl k
+  -- key, label, command
+  have hkey : optField (taken R csD) "Key" "" strOf = .ok c.key := by
+    unfold optField
+    rw [fieldOf_cs_key, hRU "key" (by decide), hRU "id" (by decide), hRU "identifier" (by decide), ok,
+      cmdOutline_lookup_other c (k := "id") (by decide), cmdOutline_lookup_other c (k := "identifier") (by decide)]
+    by_cases hk : c.key = ""
+    · have := hst_alias.2 hk
+      simp [hk, this.1, this.2, hok.rem.prim' (k := "key") (by decide)]
+    · simp [hk, rereadJ, strOf_str]
+  have hlabel : optField (taken R csD) "Label" "" strOf = .ok c.label := by
+    unfold optField
+    rw [fieldOf_cs_label, hRU "label" (by decide), hRU "name" (by decide), ol,
+      cmdOutline_lookup_other c (k := "name") (by decide)]
+    by_cases hk : c.label = ""
+    · have := hst_alias.1 hk
+      simp [hk, this, hok.rem.prim' (k := "label") (by decide)]
+    · simp [hk, rereadJ, strOf_str]
+  have hcommand : optField (taken R csD) "Command" "" strOf = .ok "" := by
+    unfold optField
+    rw [fieldOf_afKey (k := "command") (by decide), hR "command", if_pos rfl]
+  -- plugins
+  have hplug : ∃ pl', optField (taken R csD) "Plugins" none parsePlugins = .ok pl' ∧
+      normList (pl'.map fun l => l.map fun p => p.map normPlugin) =
+        normList (c.plugins.map fun l => l.map fun p => p.map normPlugin) := by
+    unfold optField
+    rw [fieldOf_afKey (k := "plugins") (by decide), hRU "plugins" (by decide), op]
+    cases hp : c.plugins with
+    | none =>
+      refine ⟨none, ?_, rfl⟩
+      simp [hok.rem.prim' (k := "plugins") (by decide)]
+    | some l =>
+      obtain ⟨hne, hall⟩ := hok.plugins l hp
+      have hne' : l.isEmpty = false := by simpa using hne
+      refine ⟨some (l.map fun p => p.map normPlugin), ?_, ?_⟩
+      · simp only [Option.getD_some, hne', Bool.false_eq_true, if_false]
+        exact plugins_roundtrip_ok l hne hall
+      · simp only [Option.map_some]
+        rw [map_map_idem]
+        intro a _
+        cases a with
+        | none => rfl
+        | some p =>
+          simp only [Option.map_some]
+          rw [normPlugin_idem p]
+  -- env
+  have henv : ∃ env', optField (taken R csD) "Env" none parseEnvMap = .ok env' ∧ normList env' = normList c.env := by
+    unfold optField
+    rw [fieldOf_afKey (k := "env") (by decide), hRU "env" (by decide), oe]
+    have hnone := hok.rem.prim' (k := "env") (by decide)
+    cases he : c.env with
+    | none => exact ⟨none, by simp [lenUMap, hnone], rfl⟩
+    | some e =>
+      cases e with
+      | nil => exact ⟨none, by simp [lenUMap, hnone], rfl⟩
+      | cons a t =>
+        refine ⟨some (a :: t), ?_, rfl⟩
+        simp only [lenUMap, List.length_cons, Nat.add_eq_zero_iff, Nat.succ_ne_self, and_false, beq_iff_eq,
+          if_false]
+        exact env_roundtrip_sorted (a :: t) (hok.env _ he)
+  -- signature
+  have hsig : optField (taken R csD) "Signature" none parseSignature = .ok c.signature := by
+    unfold optField
+    rw [fieldOf_afKey (k := "signature") (by decide), hRU "signature" (by decide), os]
+    cases c.signature with
+    | none => simp [hok.rem.prim' (k := "signature") (by decide)]
+    | some s => simp only [Option.map_some]; exact signature_roundtrip s
+  -- matrix
+  have hmx : ∃ mx', optField (taken R csD) "Matrix" none parseMatrix = .ok mx' ∧
+      mx'.map normMatrix = c.matrix.map normMatrix := by
+    unfold optField
+    rw [fieldOf_afKey (k := "matrix") (by decide), hRU "matrix" (by decide), om]
+    cases hm : c.matrix with
+    | none => exact ⟨none, by simp [hok.rem.prim' (k := "matrix") (by decide)], rfl⟩
+    | some mm =>
+      obtain ⟨m', h1, h2⟩ := matrix_roundtrip_ok mm (hok.matrix mm hm) (hst_mx mm hm)
+      exact ⟨some m', by simp only [Option.map_some]; exact h1, by simp [h2]⟩
+  -- cache
+  have hca : ∃ ca', optField (taken R csD) "Cache" none parseCache = .ok ca' ∧
+      ca'.map normCache = c.cache.map normCache := by
+    unfold optField
+    rw [fieldOf_afKey (k := "cache") (by decide), hRU "cache" (by decide), oca]
+    cases hm : c.cache with
+    | none => exact ⟨none, by simp [hok.rem.prim' (k := "cache") (by decide)], rfl⟩
+    | some k =>
+      obtain ⟨k', h1, h2⟩ := cache_roundtrip_ok k (hok.cache k hm) (hst_cache k hm).2
+      exact ⟨some k', by simp only [Option.map_some]; exact h1, by simp [h2]⟩
+  -- remainder
+  have hrem : normList (remMap (remainder R csD)) = normList c.rem := by
+    apply rem_roundtrip_gen csD ((cmdOutline c).filter fun p => p.1 != "command") rereadJ c.rem ?_ hok.rem R hsR
+    · intro k
+      rw [lookup_filter_key (fun k => k != "command")]
+      by_cases hk : k = "command"
+      · subst hk
+        simp [hR, hok.rem.prim' (k := "command") (by decide)]
+      · have : (k != "command") = true := by simpa using hk
+        rw [if_pos this]
+        exact hRU k hk
+    · intro k hk hn
+      rcases outlineKeys_cs_alias hk hn with ⟨hk', hnone⟩ | ⟨rfl, hnone⟩
+      · rw [hRU "key" (by decide), ok] at hnone
+        have hk0 : c.key = "" := by
+          by_cases h0 : c.key = ""
+          · exact h0
+          · simp [h0] at hnone
+        rcases hk' with rfl | rfl
+        · exact (hst_alias.2 hk0).1
+        · exact (hst_alias.2 hk0).2
+      · rw [hRU "label" (by decide), ol] at hnone
+        have hk0 : c.label = "" := by
+          by_cases h0 : c.label = ""
+          · exact h0
+          · simp [h0] at hnone
+        exact hst_alias.1 hk0
+    · intro k hk
+      obtain ⟨p, hp, rfl⟩ := List.mem_map.1 hk
+      exact cmdOutlineKeys_normal _ ((cmdOutline_keys c).subset (List.mem_map_of_mem (List.mem_filter.1 hp).1))
+  obtain ⟨pl', hpl1, hpl2⟩ := hplug
+  obtain ⟨env', henv1, henv2⟩ := henv
+  obtain ⟨mx', hmx1, hmx2⟩ := hmx
+  obtain ⟨ca', hca1, hca2⟩ := hca
+  refine ⟨U, { key := c.key, label := c.label, command := c.command, plugins := pl', env := env',
+               signature := c.signature, matrix := mx', cache := ca', rem := remMap (remainder R csD) }, hU, ?_, ?_⟩
+  · unfold parseCommand
+    simp only [hcmds, hRdef, hkey, hlabel, hcommand, hpl1, henv1, hsig, hmx1, hca1]
+    rfl
+  · refine ⟨?_, hUcommand, fun k hk => ?_⟩
+    · simp only [normCommand, hpl2, henv2, hmx2, hca2, hrem]
+    · rw [hl, cmdOutline_lookup_other c hk]
+
+theorem command_roundtrip (m : Unm.Entries) (c : CommandStep) (hm : NoUMapKVs m) (hk : (m.map (·.1)).Nodup)
+    (h : parseCommand m = .ok c) (hs : StableCommand c) :
+    ∃ kvs c', rereadJ (mCommand c) = .omap kvs ∧ parseCommand kvs = .ok c' ∧ normCommand c' = normCommand c :=
+  let ⟨kvs, c', h1, h2, h3, _⟩ := command_roundtrip_ok c (parseCommand_inv hm h) hs
+  ⟨kvs, c', h1, h2, h3⟩
+
+local notation "grpD" => Gen.struct_GroupStep
+
+/-! ## Part 6: steps -/
+
+/-! ### Keys that pass through the remainder -/
+
+theorem nodup_keys_remainder {m : Entries} (fs : List Field) (hm : (m.map (·.1)).Nodup) :
+    ((remainder m fs).map (·.1)).Nodup := by
+  rw [keys_remainder]
+  exact hm.sublist List.filter_sublist
+
+theorem lookup_remainder_of_not_claim {m : Entries} {fs : List Field} {k : String} (h : k ∉ claimKeys fs) :
+    (remainder m fs).lookup k = m.lookup k := by
+  rw [lookup_remainder, if_neg (fun hk => h ((outlineKeys_sublist m fs).subset hk))]
+
+theorem lookup_remMap_remainder {m : Entries} {fs : List Field} {k : String} (hn : (m.map (·.1)).Nodup)
+    (hk : k ∉ claimKeys fs) : ((remMap (remainder m fs)).getD []).lookup k = m.lookup k := by
+  rw [remMap_getD, lookup_umapOf_nodup (nodup_keys_remainder fs hn), lookup_remainder_of_not_claim hk]
+
+theorem parseCommand_rem {m : Entries} {c : CommandStep} (h : parseCommand m = .ok c) :
+    c.rem = remMap (remainder (remainder m outerD) csD) := by
+  unfold parseCommand at h
+  simp only at h
+  split at h
+  · cases h
+  · split at h
+    · simp only [Except.ok.injEq] at h
+      subst h
+      rfl
+    · cases h
+
+theorem command_rem_lookup {m : Entries} {c : CommandStep} (h : parseCommand m = .ok c) (hn : (m.map (·.1)).Nodup)
+    {k : String} (h1 : k ∉ claimKeys outerD) (h2 : k ∉ claimKeys csD) :
+    (c.rem.getD []).lookup k = m.lookup k := by
+  rw [parseCommand_rem h, lookup_remMap_remainder (nodup_keys_remainder _ hn) h2, lookup_remainder_of_not_claim h1]
+
+/-! ### Kind selection -/
+
+open StepKind in
+theorem selOf_eq_of {m U : Entries} (htype : U.lookup "type" = m.lookup "type")
+    (hkeys : m.lookup "type" = none → ∀ k ∈ kindKeys, (U.lookup k).isSome = (m.lookup k).isSome) :
+    selOf U = selOf m := by
+  unfold selOf
+  rw [htype]
+  cases ht : m.lookup "type" with
+  | none =>
+    simp only
+    rw [C15_extra_keys_irrelevant _ (fun k => (m.lookup k).isSome) .absent (hkeys ht)]
+  | some v => cases v <;> rfl
+
+open StepKind in
+theorem infer_group_has {has : String → Bool}
+    (h : select Gen.typeTable Gen.inferTable has .absent = .known .group) : has "group" = true := by
+  rw [C15_inference_rule] at h
+  simp only [specInfer] at h
+  cases h1 : has "group" with
+  | true => rfl
+  | false =>
+    exfalso
+    revert h
+    cases has "command" <;> cases has "commands" <;> cases has "plugins" <;> cases has "wait" <;>
+      cases has "waiter" <;> cases has "block" <;> cases has "input" <;> cases has "manual" <;>
+      cases has "trigger" <;> simp [h1]
+
+open StepKind in
+theorem selOf_command_of {m U : Entries} (htype : U.lookup "type" = m.lookup "type")
+    (hc : (U.lookup "command").isSome = true) (hsel : selOf m = .ok (.known .command)) :
+    selOf U = .ok (.known .command) := by
+  unfold selOf at hsel ⊢
+  rw [htype]
+  cases ht : m.lookup "type" with
+  | none =>
+    simp only
+    rw [C15_inference_rule]
+    simp [specInfer, hc]
+  | some v =>
+    rw [ht] at hsel
+    cases v <;> first | exact hsel | (simp at hsel)
+
+theorem selOf_umapOf {m : Entries} (hn : (m.map (·.1)).Nodup) : selOf (Parse.umapOf m) = selOf m :=
+  selOf_eq_of (lookup_umapOf_nodup hn _) (fun _ k _ => by rw [lookup_umapOf_nodup hn])
+
+/-! ### Group step fields -/
+
+theorem fieldOf_grp_key (r : Entries) :
+    fieldOf (taken r grpD) "Key" =
+      match r.lookup "key" with
+      | some v => some v
+      | none => match r.lookup "id" with
+        | some v => some v
+        | none => r.lookup "identifier" := by
+  unfold Gen.struct_GroupStep
+  rw [fieldOf_head (n := "Key") rfl rfl (by simp [Field.name])]
+  simp only [fieldTake, firstAlias, Field.key, Field.aliases]
+  cases r.lookup "key" <;> cases r.lookup "id" <;> cases r.lookup "identifier" <;> simp
+
+theorem fieldOf_grp_group (r : Entries) (v : Val) (h : r.lookup "group" = some v) :
+    fieldOf (taken r grpD) "Group" = some v := by
+  unfold Gen.struct_GroupStep
+  rw [fieldOf_taken_skip _ _ _ _ (by decide), fieldOf_head (n := "Group") rfl rfl (by simp [Field.name])]
+  simp [fieldTake, Field.key, h]
+
+theorem outlineKeys_grp_alias {R : Entries} {k : String} (h : k ∈ outlineKeys R grpD) (hn : k ∉ normalKeys grpD) :
+    ((k = "id" ∨ k = "identifier") ∧ R.lookup "key" = none) ∨ R.lookup "group" = none := by
+  obtain ⟨f, hf, hr, v, ht⟩ := mem_outlineKeys.1 h
+  have hk := (fieldTake_some ht).1
+  simp only [Gen.struct_GroupStep, List.mem_cons, List.not_mem_nil, or_false] at hf
+  rcases hf with rfl | rfl | rfl | rfl <;>
+    simp [Field.key, Field.aliases] at hk
+  · rcases hk with rfl | rfl | rfl
+    · exact absurd (by decide) hn
+    · refine .inl ⟨.inl rfl, ?_⟩
+      cases hp : R.lookup "key" with
+      | none => rfl
+      | some w => simp [fieldTake, Field.key, hp] at ht
+    · refine .inl ⟨.inr rfl, ?_⟩
+      cases hp : R.lookup "key" with
+      | none => rfl
+      | some w => simp [fieldTake, Field.key, hp] at ht
+  · rcases hk with rfl | rfl | rfl
+    · exact absurd (by decide) hn
+    · refine .inr ?_
+      cases hp : R.lookup "group" with
+      | none => rfl
+      | some w => simp [fieldTake, Field.key, hp] at ht
+    · refine .inr ?_
+      cases hp : R.lookup "group" with
+      | none => rfl
+      | some w => simp [fieldTake, Field.key, hp] at ht
+  all_goals first | (simp [Field.role] at hr; done) | (subst hk; exact absurd (by decide) hn)
+
+/-! ### Nested values -/
+
+theorem keysNodupKVs_iff : (l : List (String × Val)) → (KeysNodupKVs l ↔ ∀ p ∈ l, KeysNodup p.2)
+  | [] => by simp [KeysNodupKVs]
+  | (k, v) :: r => by
+    rw [KeysNodupKVs, keysNodupKVs_iff r]
+    simp
+
+theorem keysNodupList_iff : (l : List Val) → (KeysNodupList l ↔ ∀ p ∈ l, KeysNodup p)
+  | [] => by simp [KeysNodupList]
+  | v :: r => by
+    rw [KeysNodupList, keysNodupList_iff r]
+    simp
+
+theorem keysNodup_of_lookup {l : List (String × Val)} (h : KeysNodupKVs l) {k : String} {v : Val}
+    (hl : l.lookup k = some v) : KeysNodup v :=
+  (keysNodupKVs_iff l).1 h (k, v) (mem_of_lookup hl)
+
+/-- The statement of `step_roundtrip` at one fuel level (the induction hypothesis). -/
+def StepRT (f : Nat) : Prop :=
+  ∀ (x : Val) (s : Step) (w : List Warn), NoUMap x → KeysNodup x → parseStep f x = .ok (s, w) → StableStep s →
+    ∃ j s' w', mStep s = .ok j ∧ parseStep f (rereadJ j) = .ok (s', w') ∧ normStep s' = normStep s ∧ w' = w
+
+theorem steps_roundtrip_of (f : Nat) (ih : StepRT f) : (xs : List Val) → (ss : List Step) → (ws : List Warn) →
+    NoUMapList xs → KeysNodupList xs → parseSteps f xs = .ok (ss, ws) → StableSteps ss →
+    ∃ js ss', mSteps ss = .ok js ∧ parseSteps f (rereadJList js) = .ok (ss', ws) ∧ normSteps ss' = normSteps ss
+  | [], ss, ws, _, _, h, _ => by
+    rw [parseSteps.eq_1] at h
+    simp only [Except.ok.injEq, Prod.mk.injEq] at h
+    obtain ⟨rfl, rfl⟩ := h
+    exact ⟨[], [], rfl, by rw [rereadJList, parseSteps.eq_1], rfl⟩
+  | v :: r, ss, ws, hx, hd, h, hs => by
+    obtain ⟨s, w, ss', ws', hs1, hss, rfl, rfl⟩ := parseSteps_cons_ok h
+    rw [NoUMapList] at hx
+    rw [KeysNodupList] at hd
+    rw [StableSteps] at hs
+    obtain ⟨j, s1, w1, hj, hp, hn, rfl⟩ := ih v s w hx.1 hd.1 hs1 hs.1
+    obtain ⟨js, ss1, hjs, hps, hns⟩ := steps_roundtrip_of f ih r ss' ws' hx.2 hd.2 hss hs.2
+    refine ⟨j :: js, s1 :: ss1, ?_, ?_, ?_⟩
+    · rw [mSteps_cons, hj, hjs]
+    · rw [rereadJList, parseSteps.eq_2, hp, hps]
+    · rw [normSteps, normSteps, hn, hns]
+
+/-- The outline of a marshalled group step. -/
+def grpOutline (k : String) (g : Option String) (js : List Val) : List (String × Val) :=
+  optE (k == "") "key" (.str k) ++
+    [("group", match g with | none => Val.null | some s => .str s), ("steps", .seq js)]
+
+theorem mStep_group_eq (k : String) (g : Option String) (l : List Step) (r : UMap Val) (js : List Val)
+    (h : mSteps l = .ok js) :
+    mStep (.group k g (some l) r) = .ok (inlineFriendly (grpOutline k g js) r) := by
+  rw [mStep_group_some, h]
+  rfl
+
+def grpOutlineKeys : List String := ["key", "group", "steps"]
+
+theorem grpOutline_keys (k : String) (g : Option String) (js : List Val) :
+    ((grpOutline k g js).map (·.1)).Sublist grpOutlineKeys := by
+  unfold grpOutline
+  simp only [List.map_append]
+  exact (keys_optE _ _ _).append (List.Sublist.refl _)
+
+theorem grpOutline_lookups (k : String) (g : Option String) (js : List Val) :
+    (grpOutline k g js).lookup "key" = (if (k == "") = true then none else some (.str k)) ∧
+    (grpOutline k g js).lookup "group" = some (match g with | none => Val.null | some s => .str s) ∧
+    (grpOutline k g js).lookup "steps" = some (.seq js) := by
+  unfold grpOutline
+  simp only [List.lookup_append, lookup_optE, lookup_cons_if, List.lookup_nil]
+  refine ⟨?_, ?_, ?_⟩ <;> simp <;> split <;> simp
+
+theorem group_roundtrip (f : Nat) (ih : StepRT f) (m : Entries) (hm : NoUMapKVs m) (hkk : KeysNodupKVs m)
+    (g : Step) (hg : parseGroup f m = .ok g) (hs : StableStep g) :
+    ∃ j U g' k grp ss, g = .group k grp (some ss) (remMap (remainder m grpD)) ∧
+      mStep g = .ok j ∧ rereadJ j = .omap U ∧ parseGroup f U = .ok g' ∧ normStep g' = normStep g ∧
+      (U.lookup "group").isSome = true ∧
+      ∀ k', k' ∉ grpOutlineKeys → U.lookup k' = ((remMap (remainder m grpD)).getD []).lookup k' := by
+  obtain ⟨k, grp, ss, rfl, hsteps⟩ := parseGroup_ok hg
+  have hR : RemOK grpD (remMap (remainder m grpD)) := remOK_remMap m grpD hm
+  generalize remMap (remainder m grpD) = rem at hR hs
+  simp only [StableStep] at hs
+  obtain ⟨hss, _, _, hkey⟩ := hs
+  -- the nested steps
+  have hsub : ∃ js ss', mSteps ss = .ok js ∧ parseSteps f (rereadJList js) = .ok (ss', []) ∧
+      normSteps ss' = normSteps ss := by
+    rcases hsteps with ⟨_, rfl⟩ | ⟨xs, hl, hps⟩
+    · exact ⟨[], [], rfl, by rw [rereadJList, parseSteps.eq_1], rfl⟩
+    · have h1 : NoUMap (.seq xs) := noUMap_of_lookup hm hl
+      have h2 : KeysNodup (.seq xs) := keysNodup_of_lookup hkk hl
+      exact steps_roundtrip_of f ih xs ss [] (by simpa [NoUMap] using h1) (by simpa [KeysNodup] using h2) hps hss
+  obtain ⟨js, ss', hjs, hps, hns⟩ := hsub
+  have hnd : ((grpOutline k grp js).map (·.1)).Nodup := List.Nodup.sublist (grpOutline_keys k grp js) (by decide)
+  obtain ⟨U, hU, hsU, hl⟩ := reread_inline (grpOutline k grp js) rem hnd hR.sorted hR.noUMap
+  obtain ⟨ok, og, os⟩ := grpOutline_lookups k grp js
+  have hUg : U.lookup "group" = some (match grp with | none => Val.null | some s => .str s) := by
+    rw [hl, og]
+    cases grp <;> rfl
+  have hUs : U.lookup "steps" = some (.seq (rereadJList js)) := by
+    rw [hl, os]; rfl
+  have hkeyF : optField (taken U grpD) "Key" "" strOf = .ok k := by
+    unfold optField
+    rw [fieldOf_grp_key, hl "key", hl "id", hl "identifier", ok,
+      lookup_none_of_not_mem (fun h => absurd ((grpOutline_keys k grp js).subset h) (by decide)),
+      lookup_none_of_not_mem (fun h => absurd ((grpOutline_keys k grp js).subset h) (by decide))]
+    by_cases hk : k = ""
+    · have := hkey hk
+      simp [hk, this.1, this.2, hR.prim' (k := "key") (by decide)]
+    · simp [hk, rereadJ, strOf_str]
+  have hrem : normList (remMap (remainder U grpD)) = normList rem := by
+    apply rem_roundtrip_gen grpD (grpOutline k grp js) rereadJ rem ?_ hR U hsU hl
+    · intro k' hk' hn
+      rcases outlineKeys_grp_alias hk' hn with ⟨hk2, hnone⟩ | hnone
+      · rw [hl "key", ok] at hnone
+        have hk0 : k = "" := by
+          by_cases h0 : k = ""
+          · exact h0
+          · simp [h0] at hnone
+        rcases hk2 with rfl | rfl
+        · exact (hkey hk0).1
+        · exact (hkey hk0).2
+      · rw [hUg] at hnone; cases hnone
+    · intro k' hk'
+      have : ∀ k ∈ grpOutlineKeys, k ∈ normalKeys grpD := by decide
+      exact this _ ((grpOutline_keys k grp js).subset hk')
+  refine ⟨_, U, .group k grp (some ss') (remMap (remainder U grpD)), k, grp, ss, rfl,
+    mStep_group_eq k grp ss rem js hjs, hU, ?_, ?_, by rw [hUg]; rfl, fun k' hk' => ?_⟩
+  · rw [parseGroup.eq_1]
+    simp only [hkeyF, fieldOf_group_steps, hUs, hps, fieldOf_grp_group U _ hUg]
+    cases grp <;> simp [strOf_str, Except.map]
+  · simp only [normStep, hns, hrem]
+  · rw [hl, lookup_none_of_not_mem (fun h => hk' ((grpOutline_keys k grp js).subset h))]
+
+/-- A step that marshals to the very entry it was parsed from re-parses to itself. -/
+theorem verbatim_roundtrip {f : Nat} {x : Val} {s : Step} {w : List Warn} (hx : NoUMap x)
+    (h : parseStep f x = .ok (s, w)) (hm : mStep s = .ok x) :
+    ∃ j s' w', mStep s = .ok j ∧ parseStep f (rereadJ j) = .ok (s', w') ∧ normStep s' = normStep s ∧ w' = w :=
+  ⟨x, s, w, hm, by rw [reread_noUMap x hx]; exact h, rfl, rfl⟩
+
+theorem selectScalar_ne_empty {t : String} (h : StepKind.selectScalar Gen.scalarTable t ≠ .unknownType) : t ≠ "" := by
+  intro ht; subst ht
+  exact h (by decide)
+
+/-- Contents steps (`wait`, `input`, `trigger` written as mappings). -/
+theorem contents_reparse (m : Entries) (hm : NoUMapKVs m) (hn : (m.map (·.1)).Nodup) :
+    rereadJ (.umap (Parse.umapOf m)) = .omap (Parse.umapOf m) ∧ selOf (Parse.umapOf m) = selOf m ∧
+      Parse.umapOf (Parse.umapOf m) = Parse.umapOf m := by
+  refine ⟨?_, selOf_umapOf hn, umapOf_umapOf m⟩
+  rw [rereadJ, rereadJKVs_of_forall]
+  intro p hp
+  exact (noUMapKVs_iff m).1 hm p (mem_umapOf hp)
+
+theorem lenUMap_umapOf_ne {m : Entries} (hne : m ≠ []) : (lenUMap (some (Parse.umapOf m)) == 0) = false := by
+  have := umapOf_ne_nil hne
+  cases hu : Parse.umapOf m with
+  | nil => exact absurd hu this
+  | cons a b => simp [lenUMap]
+
+theorem selOf_ne_nil {m : Entries} {k : StepKind.Kind} (h : selOf m = .ok (.known k)) : m ≠ [] := by
+  intro hm; subst hm
+  rw [selOf_nil] at h; cases h
+
+open StepKind in
+theorem selOf_group_of {m U : Entries} (hn : (m.map (·.1)).Nodup) (hsel : selOf m = .ok (.known .group))
+    (hUg : (U.lookup "group").isSome = true)
+    (hUo : ∀ k', k' ∉ grpOutlineKeys → U.lookup k' = ((remMap (remainder m grpD)).getD []).lookup k') :
+    selOf U = .ok (.known .group) := by
+  have hpass : ∀ k, k ∉ grpOutlineKeys → k ∉ claimKeys grpD → U.lookup k = m.lookup k := by
+    intro k h1 h2
+    rw [hUo k h1, lookup_remMap_remainder hn h2]
+  rw [← hsel]
+  apply selOf_eq_of (hpass "type" (by decide) (by decide))
+  intro ht k hk
+  have hmg : (m.lookup "group").isSome = true := by
+    unfold selOf at hsel
+    rw [ht] at hsel
+    simp only [Except.ok.injEq] at hsel
+    exact infer_group_has hsel
+  simp only [kindKeys, List.mem_cons, List.not_mem_nil, or_false] at hk
+  rcases hk with rfl | rfl | rfl | rfl | rfl | rfl | rfl | rfl | rfl | rfl
+  all_goals first | (rw [hUg, hmg]) | (rw [hpass _ (by decide) (by decide)])
+
+theorem step_roundtrip_all : ∀ f, StepRT f
+  | 0 => by
+    intro x s w _ _ h
+    rw [parseStep.eq_1] at h; cases h
+  | f + 1 => by
+    have ih := step_roundtrip_all f
+    intro x s w hx hd h hs
+    cases x with
+    | str t =>
+      have h0 := h
+      rw [parseStep.eq_2] at h
+      split at h
+      · rename_i hsel
+        simp only [Except.ok.injEq, Prod.mk.injEq] at h; obtain ⟨rfl, rfl⟩ := h
+        apply verbatim_roundtrip hx h0
+        have hne : (t != "") = true := by
+          simpa using selectScalar_ne_empty (by rw [hsel]; simp)
+        rw [mStep_wait, if_pos hne]
+      · rename_i hsel
+        simp only [Except.ok.injEq, Prod.mk.injEq] at h; obtain ⟨rfl, rfl⟩ := h
+        apply verbatim_roundtrip hx h0
+        have hne : (t != "") = true := by
+          simpa using selectScalar_ne_empty (by rw [hsel]; simp)
+        rw [mStep_input, if_pos hne]
+      · simp only [Except.ok.injEq, Prod.mk.injEq] at h; obtain ⟨rfl, rfl⟩ := h
+        exact verbatim_roundtrip hx h0 (mStep_unknown _)
+    | omap m =>
+      have h0 := h
+      have hm : NoUMapKVs m := by simpa [NoUMap] using hx
+      have hn : (m.map (·.1)).Nodup := by rw [KeysNodup] at hd; exact hd.1
+      have hkk : KeysNodupKVs m := by rw [KeysNodup] at hd; exact hd.2
+      rw [parseStep.eq_3] at h
+      split at h
+      · cases h
+      · rename_i sel hsel
+        split at h
+        · cases h
+        · simp only [Except.ok.injEq, Prod.mk.injEq] at h; obtain ⟨rfl, rfl⟩ := h
+          exact verbatim_roundtrip hx h0 (mStep_unknown _)
+        · simp only [Except.ok.injEq, Prod.mk.injEq] at h; obtain ⟨rfl, rfl⟩ := h
+          exact verbatim_roundtrip hx h0 (mStep_unknown _)
+        · split at h
+          · rename_i c hc
+            simp only [Except.ok.injEq, Prod.mk.injEq] at h; obtain ⟨rfl, rfl⟩ := h
+            rw [StableStep] at hs
+            obtain ⟨U, c', hU, hp, hnc, hUc, hUo⟩ := command_roundtrip_ok c (parseCommand_inv hm hc) hs
+            have hselU : selOf U = .ok (.known .command) := by
+              apply selOf_command_of _ (by rw [hUc]; rfl) hsel
+              rw [hUo "type" (by decide), command_rem_lookup hc hn (by decide) (by decide)]
+            refine ⟨mCommand c, .command c', [], mStep_command c, ?_, ?_, rfl⟩
+            · rw [hU, parseStep.eq_3, hselU]
+              simp only [hp]
+            · rw [normStep, normStep, hnc]
+          · simp only [Except.ok.injEq, Prod.mk.injEq] at h; obtain ⟨rfl, rfl⟩ := h
+            exact verbatim_roundtrip hx h0 (mStep_unknown _)
+        · simp only [Except.ok.injEq, Prod.mk.injEq] at h; obtain ⟨rfl, rfl⟩ := h
+          obtain ⟨h1, h2, h3⟩ := contents_reparse m hm hn
+          refine ⟨.umap (Parse.umapOf m), .wait "" (some (Parse.umapOf m)), [], ?_, ?_, rfl, rfl⟩
+          · rw [mStep_wait, lenUMap_umapOf_ne (selOf_ne_nil hsel)]; rfl
+          · rw [h1, parseStep.eq_3, h2, hsel]
+            simp only [h3]
+        · simp only [Except.ok.injEq, Prod.mk.injEq] at h; obtain ⟨rfl, rfl⟩ := h
+          obtain ⟨h1, h2, h3⟩ := contents_reparse m hm hn
+          refine ⟨.umap (Parse.umapOf m), .input "" (some (Parse.umapOf m)), [], ?_, ?_, rfl, rfl⟩
+          · rw [mStep_input, lenUMap_umapOf_ne (selOf_ne_nil hsel)]; rfl
+          · rw [h1, parseStep.eq_3, h2, hsel]
+            simp only [h3]
+        · simp only [Except.ok.injEq, Prod.mk.injEq] at h; obtain ⟨rfl, rfl⟩ := h
+          obtain ⟨h1, h2, h3⟩ := contents_reparse m hm hn
+          refine ⟨.umap (Parse.umapOf m), .trigger (some (Parse.umapOf m)), [], ?_, ?_, rfl, rfl⟩
+          · rw [mStep_trigger]; rfl
+          · rw [h1, parseStep.eq_3, h2, hsel]
+            simp only [h3]
+        · split at h
+          · rename_i g hg
+            simp only [Except.ok.injEq, Prod.mk.injEq] at h; obtain ⟨rfl, rfl⟩ := h
+            obtain ⟨j, U, g', k, grp, ss, hgeq, hj, hU, hpg, hng, hUg, hUo⟩ :=
+              group_roundtrip f ih m hm hkk g hg hs
+            have hselU : selOf U = .ok (.known .group) := selOf_group_of hn hsel hUg hUo
+            refine ⟨j, g', [], hj, ?_, hng, rfl⟩
+            rw [hU, parseStep.eq_3, hselU]
+            simp only [hpg]
+          · simp only [Except.ok.injEq, Prod.mk.injEq] at h; obtain ⟨rfl, rfl⟩ := h
+            exact verbatim_roundtrip hx h0 (mStep_unknown _)
+        · simp only [Except.ok.injEq, Prod.mk.injEq] at h; obtain ⟨rfl, rfl⟩ := h
+          exact verbatim_roundtrip hx h0 (mStep_unknown _)
+    | null | bool _ | int _ | float _ | time _ | seq _ | umap _ =>
+      rw [parseStep.eq_4 _ _ (by intro s h; cases h) (by intro m h; cases h)] at h; cases h
+
+theorem step_roundtrip (f : Nat) (x : Val) (s : Step) (w : List Warn) (hx : NoUMap x) (hd : KeysNodup x)
+    (h : parseStep f x = .ok (s, w)) (hs : StableStep s) :
+    ∃ j s' w', mStep s = .ok j ∧ parseStep f (rereadJ j) = .ok (s', w') ∧ normStep s' = normStep s ∧ w' = w :=
+  step_roundtrip_all f x s w hx hd h hs
+
+local notation "pipeD" => Gen.struct_Pipeline
+
+/-! ## Part 7: the pipeline -/
+
+theorem parsePipeline_inv {v : Val} {p : Pipeline} {ws : List Warn} (hv : NoUMap v) (hd : KeysNodup v)
+    (h : parsePipeline v = .ok (p, ws)) :
+    ∃ xs l ws', p.steps = some l ∧ NoUMapList xs ∧ KeysNodupList xs ∧
+      parseSteps stepFuel xs = .ok (l, ws') ∧ RemOK pipeD p.rem := by
+  unfold parsePipeline at h
+  simp only [fieldOf_pipeline_steps] at h
+  split at h
+  · rename_i m
+    have hm : NoUMapKVs m := by simpa [NoUMap] using hv
+    have hkk : KeysNodupKVs m := by rw [KeysNodup] at hd; exact hd.2
+    have hR := remOK_remMap m pipeD hm
+    split at h
+    · cases h
+    · rename_i steps ws1 hst
+      split at h
+      · cases h
+      · rename_i env _
+        split at hst
+        · rename_i hl
+          simp only [Except.ok.injEq, Prod.mk.injEq] at hst
+          obtain ⟨rfl, rfl⟩ := hst
+          simp only [Except.ok.injEq, Prod.mk.injEq] at h
+          obtain ⟨rfl, _⟩ := h
+          exact ⟨[], [], [], rfl, trivial, trivial, parseSteps.eq_1 _, hR⟩
+        · rename_i hl
+          simp only [Except.ok.injEq, Prod.mk.injEq] at hst
+          obtain ⟨rfl, rfl⟩ := hst
+          simp only [Except.ok.injEq, Prod.mk.injEq] at h
+          obtain ⟨rfl, _⟩ := h
+          exact ⟨[], [], [], rfl, trivial, trivial, parseSteps.eq_1 _, hR⟩
+        · rename_i xs hl
+          have h1 : NoUMap (.seq xs) := noUMap_of_lookup hm hl
+          have h2 : KeysNodup (.seq xs) := keysNodup_of_lookup hkk hl
+          cases hps : parseSteps stepFuel xs with
+          | error e => rw [hps] at hst; cases hst
+          | ok r =>
+            obtain ⟨l, ws'⟩ := r
+            rw [hps] at hst
+            simp only [Except.map, Except.ok.injEq, Prod.mk.injEq] at hst
+            obtain ⟨rfl, rfl⟩ := hst
+            simp only [Except.ok.injEq, Prod.mk.injEq] at h
+            obtain ⟨rfl, _⟩ := h
+            exact ⟨xs, l, ws', rfl, by simpa [NoUMap] using h1, by simpa [KeysNodup] using h2, hps, hR⟩
+        · cases hst
+  · rename_i xs
+    split at h
+    · cases h
+    · rename_i ss ws1 hps
+      simp only [Except.ok.injEq, Prod.mk.injEq] at h
+      obtain ⟨rfl, _⟩ := h
+      exact ⟨xs, ss, ws1, rfl, by simpa [NoUMap] using hv, by simpa [KeysNodup] using hd, hps, remOK_none _⟩
+  · cases h
+
+def envOV (kvs : List (String × String)) : Val := .omap (kvs.map fun (k, v) => (k, .str v))
+
+def pipeOutline (js : List Val) (env : Option (List (String × String))) : List (String × Val) :=
+  [("steps", .seq js)] ++ optO env "env" envOV
+
+theorem mPipeline_eq (p : Pipeline) (l : List Step) (js : List Val) (hl : p.steps = some l) (h : mSteps l = .ok js) :
+    mPipeline p = .ok (inlineFriendly (pipeOutline js p.env) p.rem) := by
+  obtain ⟨steps, env, rem⟩ := p
+  simp only at hl
+  subst hl
+  unfold mPipeline
+  simp only [h, Except.map]
+  cases env <;> rfl
+
+theorem pipeOutline_keys (js : List Val) (env : Option (List (String × String))) :
+    ((pipeOutline js env).map (·.1)).Sublist ["steps", "env"] := by
+  unfold pipeOutline
+  simp only [List.map_append]
+  exact (List.Sublist.refl _).append (keys_optO _ _ _)
+
+theorem json_fixpoint (v : Val) (p : Pipeline) (ws : List Warn) (hv : NoUMap v) (hd : KeysNodup v)
+    (h : parsePipeline v = .ok (p, ws)) (hs : StablePipeline p) :
+    ∃ j p' ws', mPipeline p = .ok j ∧ parsePipeline (rereadJ j) = .ok (p', ws') ∧ normPipeline p' = normPipeline p := by
+  obtain ⟨xs, l, ws1, hl, hx1, hx2, hps, hR⟩ := parsePipeline_inv hv hd h
+  obtain ⟨js, ss', hjs, hps', hns⟩ := steps_roundtrip_of stepFuel (step_roundtrip_all stepFuel) xs l ws1 hx1 hx2 hps
+    (hs.1 l hl)
+  have hnd : ((pipeOutline js p.env).map (·.1)).Nodup := List.Nodup.sublist (pipeOutline_keys js p.env) (by decide)
+  obtain ⟨U, hU, hsU, hlk⟩ := reread_inline (pipeOutline js p.env) p.rem hnd hR.sorted hR.noUMap
+  have hUs : U.lookup "steps" = some (.seq (rereadJList js)) := by
+    rw [hlk]; simp [pipeOutline, List.lookup_append, lookup_cons_if, rereadJ]
+  have hUe : U.lookup "env" = p.env.map fun e => rereadJ (envOV e) := by
+    rw [hlk]
+    simp only [pipeOutline, List.lookup_append, lookup_cons_if, lookup_optO, List.lookup_nil]
+    cases p.env with
+    | none => simp [hR.prim' (k := "env") (by decide)]
+    | some e => simp
+  have henv : optField (taken U pipeD) "Env" none parseEnvOrdered = .ok p.env := by
+    unfold optField
+    rw [fieldOf_afKey (k := "env") (by decide), hUe]
+    cases p.env with
+    | none => rfl
+    | some e => exact pipeline_env_roundtrip e
+  have hrem := rem_roundtrip_af pipeD aliasFree_pipeline _ p.rem
+    (by
+      intro k hk
+      have : ∀ k ∈ ["steps", "env"], k ∈ normalKeys pipeD := by decide
+      exact this k ((pipeOutline_keys js p.env).subset hk)) hR U hsU hlk
+  refine ⟨_, { steps := some ss', env := p.env, rem := remMap (remainder U pipeD) }, ws1,
+    mPipeline_eq p l js hl hjs, ?_, ?_⟩
+  · rw [hU]
+    unfold parsePipeline
+    simp only [fieldOf_pipeline_steps, hUs, hps', Except.map, henv]
+  · simp only [normPipeline, hns, hrem, hl]
 
 end GoPipeline.Roundtrip
